@@ -36,6 +36,15 @@ Proof. destruct e; cbn; intros H; try discriminate H; reflexivity. Qed.
 Lemma gate_R_ext s s' t : ph s' = ph s -> pp s' = pp s -> gate_R s t -> gate_R s' t.
 Proof. intros H1 H2. unfold gate_R. rewrite H1, H2. auto. Qed.
 
+Lemma cleanup_connecting s e s' :
+  ph s = Connecting -> lp s = LNone \/ lp s = LEnd -> step_cleanup s e = Some s' -> e = EClosed.
+Proof.
+  intros Hph Hl H. unfold step_cleanup in H. rewrite Hph in H.
+  destruct Hl as [Hl|Hl]; rewrite Hl in H; destruct e; try discriminate H; try reflexivity;
+    cbn [phase_connected phase_geq_connected] in H; rewrite ?andb_false_r in H; cbn in H; try discriminate H.
+  destruct k; discriminate H.
+Qed.
+
 Lemma gate_step_lemma s t e s' :
   inv_phase s -> gate_R s t -> step s e = Some s' -> exists t', gate_step t e = Some t' /\ gate_R s' t'.
 Proof.
@@ -102,11 +111,8 @@ Proof.
       destruct HR as [Hph _]; destruct Hi as [Hi _]; destruct (Hi Hph) as (_ & _ & _ & _ & Hl);
       (assert (Hl1 : lp s1 = lp s) by (destruct Hv as [[-> _]|(_ & _ & ->)]; reflexivity));
       (assert (Hph1 : ph s1 = Connecting) by (destruct Hv as [[-> _]|(_ & _ & ->)]; exact Hph));
-      unfold step_cleanup in Hp; rewrite Hl1, Hph1 in Hp;
-      (destruct Hl as [Hl|Hl]; rewrite Hl in Hp);
-      destruct e; try discriminate Hp;
-      rewrite ?andb_false_r in Hp; cbn in Hp; try discriminate Hp;
-      discriminate Hg.
+      rewrite <- Hl1 in Hl;
+      rewrite (cleanup_connecting _ _ _ Hph1 Hl Hp) in Hg; discriminate Hg.
   - (* Close() from outside *)
     exists t. split; [apply gate_neutral_step; reflexivity|exact HR].
 Qed.
